@@ -1,4 +1,16 @@
 import Hostd.Drive.Mdm
 open Hostd
-def main : IO Unit := do
-  Proto.loop (← IO.getStdin) ({} : Drive.Mdm.DState) Drive.Mdm.step Drive.Mdm.stats
+
+/-- `drv_mdm [site ...]`: every argument names a repair that the tree under test contains in
+addition to `Hostd.Mdm.deployed` (a `Fixes` field name, a patch number 1-9, `all`, `none`). -/
+def main (args : List String) : IO UInt32 := do
+  let mut fx := Mdm.deployed
+  for a in args do
+    match fx.enable a with
+    | some f => fx := f
+    | none =>
+      IO.eprintln s!"drv_mdm: unknown repair '{a}'"
+      IO.println s!"BADLINE line=0 op=driver why=unknown_repair_{a}"
+      return 2
+  Proto.loop (← IO.getStdin) ({} : Drive.Mdm.DState) (Drive.Mdm.step fx) Drive.Mdm.stats
+  return 0
